@@ -3,6 +3,10 @@ import json, os, sys
 HERE = os.path.dirname(os.path.dirname(os.path.abspath(__file__)))
 
 CHECKS = {
+    "C14": ("exploration", "3 C14",
+            "Model classes from a grammar (optional primitives incl. falsy values, lists, sets, nested, recursive, an inheritance chain and an unrelated sibling at one nested position; both partial factories; views of installed schemas) are instantiated with the full cross product of per-field corpora (deterministically shrunk to a cap, never sampled) in every construction mode the library offers (keyword, parse_obj, JSON, YAML, to_partial, cast, raw complete object, harvester). All ordered pairs and triples x overwrite on/off are merged and compared with a plain-dict reference merge; identity, associativity (where claimed), non-mutation of operands (content and identity of nested objects), no dropped value, complete->partial->complete round trip, and harvest() over all orders of three sources.",
+            "Finite corpora (cap 14 instances per class quick, 36 thorough); associativity judged only where nested classes form an inheritance chain, as the property restricts; equal scalar provided twice may raise or be kept.",
+            "exhaustive enumeration of instance triples against a reference model (bounded grammar)"),
     "C12": ("exploration", "3 C12",
             "A finite grammar of field types (26 atoms incl. strict/plain primitives, phantom and constrained types, Duration, PintUnit, PintQuantity, SemVerTuple, Literal, Enum, date, AnyHttpUrl, nested schemas with and without JSON-LD constants, LDIdRef; Optional/List/Set/Union to depth 2, a core to depth 3) generates one schema class per type x constant variant; every class is instantiated with the complete boundary corpus of its type, and all installed schemas with every <=2-field deviation from a minimal instance. Oracle: parse_raw(bytes/json/yaml) and parse_obj(json_dict) give an equal instance, second round trip identical, constants always dumped with their value and ignored on input.",
             "Exhaustive for the stated grammar and corpora; inputs the constructor rejects are not judged (property speaks about valid instances); NaN compared for parsability only.",
